@@ -108,6 +108,8 @@ void Normalizer::EnumDeclaration(SyntaxTree::Node& quant) {
   auto newQuant = std::make_unique<SyntaxTree::Node>(quant.token);
   newQuant->AddChildCopy(quant(0));
   newQuant->AddChildCopy(quant(1));
+  // Note: copy of the domain is evaluated inside the scope of the preceding variables and should not rebind them
+  RenameBoundVariables(newQuant->At(1));
   newQuant->AdoptChild(quant.ExtractChild(2));
 
   if (quant(0).ChildrenCount() > 2) {
@@ -117,6 +119,72 @@ void Normalizer::EnumDeclaration(SyntaxTree::Node& quant) {
   }
   quant.AdoptChild(std::move(newQuant));
   quant(0) = quant(0)(0);
+}
+
+void Normalizer::RenameBoundVariables(SyntaxTree::Node& target) {
+  std::unordered_set<std::string> boundNames{};
+  CollectBoundNames(target, boundNames);
+  if (!std::empty(boundNames)) {
+    NameSubstitutes newNames{};
+    RenameLocals(target, boundNames, newNames);
+  }
+}
+
+void Normalizer::CollectBoundNames(const SyntaxTree::Node& root, std::unordered_set<std::string>& names) {
+  switch (root.token.id) {
+  default: break;
+  case TokenID::FORALL:
+  case TokenID::EXISTS:
+  case TokenID::NT_DECLARATIVE_EXPR:
+  case TokenID::NT_RECURSIVE_FULL:
+  case TokenID::NT_RECURSIVE_SHORT:
+  case TokenID::ITERATE:
+  case TokenID::ASSIGN: {
+    CollectDeclaredNames(root(0), names);
+    break;
+  }
+  }
+  for (Index child = 0; child < root.ChildrenCount(); ++child) {
+    CollectBoundNames(root(child), names);
+  }
+}
+
+void Normalizer::CollectDeclaredNames(const SyntaxTree::Node& declaration, std::unordered_set<std::string>& names) {
+  if (declaration.token.id == TokenID::ID_LOCAL) {
+    names.emplace(declaration.token.data.ToText());
+  }
+  for (Index child = 0; child < declaration.ChildrenCount(); ++child) {
+    CollectDeclaredNames(declaration(child), names);
+  }
+}
+
+void Normalizer::RenameLocals(
+  SyntaxTree::Node& target,
+  const std::unordered_set<std::string>& oldNames,
+  NameSubstitutes& newNames
+) {
+  if (target.token.id == TokenID::ID_LOCAL) {
+    const auto& oldName = target.token.data.ToText();
+    if (oldNames.contains(oldName)) {
+      auto iter = newNames.find(oldName);
+      if (iter == std::end(newNames)) {
+        iter = newNames.emplace(oldName, CreateLocalName()).first;
+      }
+      target.token.data = TokenData{ iter->second };
+    }
+  }
+  for (Index child = 0; child < target.ChildrenCount(); ++child) {
+    RenameLocals(target(child), oldNames, newNames);
+  }
+}
+
+std::string Normalizer::CreateLocalName() {
+  std::string newName{};
+  do { // Note: generated name should not capture variables of the calling expression
+    ++localVarBase;
+    newName = R"(__var)" + std::to_string(localVarBase);
+  } while (userLocals.contains(newName));
+  return newName;
 }
 
 void Normalizer::TupleDeclaration(
@@ -234,10 +302,7 @@ void Normalizer::SubstituteArgs(SyntaxTree::Node& target, const StrRange pos) {
       std::string newName{};
       const auto iter = nameSubstitutes.find(oldName);
       if (iter == std::end(nameSubstitutes)) {
-        do { // Note: generated name should not capture variables of the calling expression
-          ++localVarBase;
-          newName = R"(__var)" + std::to_string(localVarBase);
-        } while (userLocals.contains(newName));
+        newName = CreateLocalName();
         nameSubstitutes.insert(make_pair(oldName, newName));
       } else {
         newName = iter->second;
